@@ -1,10 +1,11 @@
 (* C13 - Grid index: nearest() returns a live path end that no neighbouring end beats.  Statements only.
-   Proved here: the adjacency lists are exactly the Chebyshev-1 neighbourhoods; ends within one cell width fall in adjacent
-   cells; nearest() returns the first minimum over the ids stored in the neighbourhood cells (over all cells when that is empty,
-   or when the only candidate is id 0).  NOT yet proved (stated as C13_grid_invariant_todo in DESIGN.md): that after construction
-   and any removals the cells hold exactly the live ends lying in them; that part of the property is covered by the correspondence
-   and the brute-force judgement of every query of every generated history. *)
-From Plotink Require Import Base.Prelude Model.Grid Proofs.GridProofs.
+   The whole statement is proved for every vertex list, bins >= 1, reversal setting, and every history of removals of
+   distinct existing paths: the constructor files every end in the cell its coordinates fall in (all of them inside the grid:
+   shim lemma), removals take out exactly the removed path's ends and never raise, and a query returns None exactly when no
+   path remains, otherwise the id of a live end at least as close as every live end in the query's cell and its eight
+   neighbours, and as every live end when those cells hold none.  Exact rational arithmetic (the floats of the code are
+   tied to it by the correspondence run, see DESIGN.md). *)
+From Plotink Require Import Base.Prelude Model.Grid Proofs.GridProofs Proofs.GridInv.
 Open Scope Z_scope.
 
 Theorem C13_adjacent : forall b x y x' y', 1 <= b -> 0 <= x < b -> 0 <= y < b -> 0 <= x' < b -> 0 <= y' < b ->
@@ -15,9 +16,8 @@ Proof. exact adjacent_spec. Qed.
 Theorem C13_within_one_cell : forall u v : Q, (Qabs (u - v) <= 1)%Q -> Z.abs (Qfloor u - Qfloor v) <= 1.
 Proof. exact floor_near. Qed.
 
-(* nearest() against the grid contents: None iff no id is stored anywhere; otherwise a stored id that is at least as close as
-   every id stored in the query's cell and its neighbours, and as every stored id when those cells are empty *)
-Theorem C13_nearest_partial : forall ix q,
+(* nearest() against the grid contents, whatever they are *)
+Theorem C13_nearest_wrt_grid : forall ix q,
   match nearest ix q with
   | None => all_ids ix q = []
   | Some e => In e (all_ids ix q) /\ (forall e', In e' (nb_ids ix q) -> (dist ix q e <= dist ix q e')%Q) /\
@@ -25,13 +25,56 @@ Theorem C13_nearest_partial : forall ix q,
   end.
 Proof. exact nearest_wrt_grid. Qed.
 
+(* the property: ends_of = the (id, point) pairs of all path ends (starts; ends too when reversal is allowed);
+   alive_rs rs = ends of paths not in rs; near_cell = column and row differ by at most 1 from the query's (clamped) cell.
+     nearest_ok r := match r with
+       | None    => no end is alive
+       | Some id => id is the id of an alive end e, e is at least as close to q as every alive end in a near cell,
+                    and as every alive end if no alive end is in a near cell  end *)
+Theorem C13_nearest : forall vs b reverse ix0 rs, 1 <= b -> build vs b reverse = Ret ix0 ->
+  NoDup rs -> (forall i, In i rs -> (i < length vs)%nat) ->
+  exists ix, removes ix0 rs = Ret ix /\
+    forall q, nearest_ok vs b reverse ix0 (alive_rs vs rs) q (nearest ix q).
+Proof. exact nearest_history. Qed.
+
+(* "returns None exactly when no path remains": no end is alive iff every path has been removed *)
+Theorem C13_none_iff : forall vs reverse rs,
+  (forall e, In e (ends_of vs reverse) -> alive_rs vs rs e = false) <-> (forall i, (i < length vs)%nat -> In i rs).
+Proof. exact no_live_iff. Qed.
+
+(* "the true nearest end whenever one lies within one cell width": such an end is in a near cell, so by C13_nearest the
+   result is at least as close as it *)
+Theorem C13_one_cell_width : forall vs b reverse ix0, 1 <= b -> build vs b reverse = Ret ix0 -> forall q e, In e (ends_of vs reverse) ->
+  (Qabs (fst q - fst (snd e)) <= bsx ix0)%Q -> (Qabs (snd q - snd (snd e)) <= bsy ix0)%Q -> near_cell b ix0 q (snd e).
+Proof. exact within_one_cell_near. Qed.
+
+(* the constructor: a zero extent raises, otherwise every end is filed in range *)
+Theorem C13_build : forall vs b reverse ix, 1 <= b -> build vs b reverse = Ret ix ->
+  bins ix = b /\ count ix = length vs /\ rev_ok ix = reverse /\ verts ix = vs /\
+  length (grid ix) = Z.to_nat (b * b) /\
+  (forall e, In e (ends_of vs reverse) -> (cellnat ix (snd e) < Z.to_nat (b * b))%nat) /\
+  (forall c, nth c (grid ix) [] = map fst (filter (fun e => Nat.eqb (cellnat ix (snd e)) c) (ends_of vs reverse))) /\
+  (0 < bsx ix)%Q /\ (0 < bsy ix)%Q /\
+  (forall e, In e (ends_of vs reverse) -> (gxmin ix <= fst (snd e))%Q /\ (gymin ix <= snd (snd e))%Q).
+Proof. exact build_spec. Qed.
+
 Example C13_example :
   match build [((0, 0), (4, 0)); ((1, 3), (2, 2)); ((9, 9), (8, 8))]%Q 3 true with
   | Ret ix => (nearest ix (4, 1)%Q, match remove_path ix 0 with Ret ix' => nearest ix' (4, 1)%Q | Raise _ => None end)
   | Raise _ => (None, None)
   end = (Some 3%nat, Some 4%nat).
 Proof. vm_compute. reflexivity. Qed.
+(* the hypotheses of C13_nearest are met by a concrete history *)
+Example C13_nonvacuous :
+  match build [((0, 0), (4, 0)); ((1, 3), (2, 2)); ((9, 9), (8, 8))]%Q 3 true with
+  | Ret ix => match removes ix [2%nat; 0%nat] with Ret ix' => nearest ix' (9, 9)%Q | Raise _ => None end
+  | Raise _ => None end = Some 4%nat.
+Proof. vm_compute. reflexivity. Qed.
 
 Print Assumptions C13_adjacent.
 Print Assumptions C13_within_one_cell.
-Print Assumptions C13_nearest_partial.
+Print Assumptions C13_nearest_wrt_grid.
+Print Assumptions C13_nearest.
+Print Assumptions C13_none_iff.
+Print Assumptions C13_one_cell_width.
+Print Assumptions C13_build.
